@@ -170,6 +170,8 @@ log error warn info debug captureStackTrace isView""".split()
 RECEIVERS = {
     "string": '"abc"', "number": "(42.5)", "integer": "(7)", "boolean": "true", "array": "[3, 1, 2]", "object": "({a: 1})",
     "function": "(function (a, b) { return a })", "arrow": "(() => 1)", "regexp": "/a(b)?/g", "error": "(new Error('m'))",
+    "empty-string": '""', "odd-string": '"a\\u0130\\u00df\\ud83d 1"', "empty-array": "[]", "nested-array": "[[1], [2, [3]]]",
+    "empty-typedarray": "(new Float64Array(0))", "sticky-regexp": "/a*/y", "icase-regexp": "/\\w+|\\u0130/gi",
     "typedarray": "(new Uint8Array([1, 2, 3]))", "arraybuffer": "(new ArrayBuffer(8))", "arguments": "(function () { return arguments })(1, 2)",
     "Math": "Math", "JSON": "JSON", "Object": "Object", "Array": "Array", "Number": "Number", "String": "String", "Boolean": "Boolean",
     "RegExp": "RegExp", "Error": "Error", "Function": "Function", "console": "console", "Date": "Date", "Uint8Array": "Uint8Array",
@@ -180,7 +182,10 @@ GLOBAL_FUNCS = ["parseInt", "parseFloat", "isNaN", "isFinite", "eval", "Object",
                 "Uint8ClampedArray", "Int16Array", "Uint16Array", "Int32Array", "Uint32Array", "Float32Array", "Float64Array",
                 "ArrayBuffer", "encodeURIComponent", "decodeURIComponent", "encodeURI", "decodeURI", "escape", "unescape"]
 ARGS = ["undefined", "null", "NaN", "Infinity", "-Infinity", "-1", "-0", "2147483648", "9007199254740992", "1e21", "0.5",
-        '"12"', '"x"', "({})", "[]", "(function () { return 1 })"]
+        '"12"', '"x"', "({})", "[]", "(function () { return 1 })",
+        # callbacks that change the receiver while the built-in is running
+        '(function () { if (typeof r == "object" && r && r.pop) { r.pop(); r.pop() } return -1 })',
+        '(function () { if (typeof r == "object" && r && r.push) r.push(0); return 1 })']
 
 
 def _vectors(maxlen):
